@@ -278,6 +278,9 @@ func absTemp(t metricpb.AggregationTemporality) string {
 }
 
 func absSum(f float64) string {
+	if numMode {
+		return numStr(f)
+	}
 	if c, ok := sumRev[mathBits(f)]; ok {
 		return c
 	}
@@ -285,6 +288,9 @@ func absSum(f float64) string {
 }
 
 func absCnt(u uint64) string {
+	if numMode {
+		return strconv.FormatUint(u, 10)
+	}
 	if c, ok := cntRev[u]; ok {
 		return c
 	}
@@ -327,6 +333,15 @@ func absExemplars(xs []*metricpb.Exemplar) []ExOut {
 }
 
 func absNumber(dp *metricpb.NumberDataPoint) (num, val string) {
+	if numMode {
+		switch v := dp.GetValue().(type) {
+		case *metricpb.NumberDataPoint_AsInt:
+			return "int", strconv.FormatInt(v.AsInt, 10)
+		case *metricpb.NumberDataPoint_AsDouble:
+			return "float", numStr(v.AsDouble)
+		}
+		return unk("novalue"), unk("novalue")
+	}
 	switch v := dp.GetValue().(type) {
 	case *metricpb.NumberDataPoint_AsInt:
 		if c, ok := intRev[v.AsInt]; ok {
@@ -346,13 +361,16 @@ func numberPoints(dps []*metricpb.NumberDataPoint) []DPOut {
 	out := []DPOut{}
 	for _, dp := range dps {
 		num, val := absNumber(dp)
-		out = append(out, DPOut{Da: absAttrs("dp", dp.GetAttributes()), Start: absTime(dp.GetStartTimeUnixNano()), Time: absTime(dp.GetTimeUnixNano()),
+		out = append(out, DPOut{Da: absAttrs("dp", dp.GetAttributes()), Start: dpStart(dp.GetStartTimeUnixNano(), dp.GetTimeUnixNano()), Time: dpTime(dp.GetStartTimeUnixNano(), dp.GetTimeUnixNano()),
 			Val: val, Num: num, Cnt: na, Lay: na, Mm: na, Q: na, Ex: absExemplars(dp.GetExemplars())})
 	}
 	return out
 }
 
 func absMM(min, max *float64) string {
+	if numMode {
+		return numMM(min, max)
+	}
 	if c, ok := mmRev[renderMM(min, max)]; ok {
 		return c
 	}
@@ -383,7 +401,7 @@ func projectMetric(m *metricpb.Metric) OutItem {
 		fv.Agg = "hist"
 		fv.Temp = absTemp(d.Histogram.GetAggregationTemporality())
 		for _, dp := range d.Histogram.GetDataPoints() {
-			o := DPOut{Da: absAttrs("dp", dp.GetAttributes()), Start: absTime(dp.GetStartTimeUnixNano()), Time: absTime(dp.GetTimeUnixNano()),
+			o := DPOut{Da: absAttrs("dp", dp.GetAttributes()), Start: dpStart(dp.GetStartTimeUnixNano(), dp.GetTimeUnixNano()), Time: dpTime(dp.GetStartTimeUnixNano(), dp.GetTimeUnixNano()),
 				Num: na, Cnt: absCnt(dp.GetCount()), Q: na, Ex: absExemplars(dp.GetExemplars()), Mm: absMM(dp.Min, dp.Max)}
 			if dp.Sum == nil {
 				o.Val = unk("nosum")
@@ -396,13 +414,16 @@ func projectMetric(m *metricpb.Metric) OutItem {
 			} else {
 				o.Lay = unk(lr)
 			}
+			if numMode {
+				o.Lay = numHistLay(dp.GetExplicitBounds(), dp.GetBucketCounts())
+			}
 			fv.Dps = append(fv.Dps, o)
 		}
 	case *metricpb.Metric_ExponentialHistogram:
 		fv.Agg = "exphist"
 		fv.Temp = absTemp(d.ExponentialHistogram.GetAggregationTemporality())
 		for _, dp := range d.ExponentialHistogram.GetDataPoints() {
-			o := DPOut{Da: absAttrs("dp", dp.GetAttributes()), Start: absTime(dp.GetStartTimeUnixNano()), Time: absTime(dp.GetTimeUnixNano()),
+			o := DPOut{Da: absAttrs("dp", dp.GetAttributes()), Start: dpStart(dp.GetStartTimeUnixNano(), dp.GetTimeUnixNano()), Time: dpTime(dp.GetStartTimeUnixNano(), dp.GetTimeUnixNano()),
 				Num: na, Cnt: absCnt(dp.GetCount()), Q: na, Ex: absExemplars(dp.GetExemplars()), Mm: absMM(dp.Min, dp.Max)}
 			if dp.Sum == nil {
 				o.Val = unk("nosum")
@@ -416,6 +437,9 @@ func projectMetric(m *metricpb.Metric) OutItem {
 			} else {
 				o.Lay = unk(lr)
 			}
+			if numMode {
+				o.Lay = "c07" // the exponential layout is C07's subject
+			}
 			fv.Dps = append(fv.Dps, o)
 		}
 	case *metricpb.Metric_Summary:
@@ -425,7 +449,7 @@ func projectMetric(m *metricpb.Metric) OutItem {
 			for _, q := range dp.GetQuantileValues() {
 				qs = append(qs, quant{q.GetQuantile(), q.GetValue()})
 			}
-			o := DPOut{Da: absAttrs("dp", dp.GetAttributes()), Start: absTime(dp.GetStartTimeUnixNano()), Time: absTime(dp.GetTimeUnixNano()),
+			o := DPOut{Da: absAttrs("dp", dp.GetAttributes()), Start: dpStart(dp.GetStartTimeUnixNano(), dp.GetTimeUnixNano()), Time: dpTime(dp.GetStartTimeUnixNano(), dp.GetTimeUnixNano()),
 				Val: absSum(dp.GetSum()), Num: na, Cnt: absCnt(dp.GetCount()), Lay: na, Mm: na, Ex: []ExOut{}}
 			if c, ok := qRev[renderQ(qs)]; ok {
 				o.Q = c
@@ -454,4 +478,20 @@ func projectMetrics(rms []*metricpb.ResourceMetrics) []ResGroup {
 		out = append(out, g)
 	}
 	return out
+}
+
+func dpStart(start, now uint64) string {
+	if numMode {
+		s, _ := numTimes(start, now)
+		return s
+	}
+	return absTime(start)
+}
+
+func dpTime(start, now uint64) string {
+	if numMode {
+		_, t := numTimes(start, now)
+		return t
+	}
+	return absTime(now)
 }
